@@ -490,16 +490,21 @@ class _ChildrenList(_TaskList):
             raise RuntimeError("After not found in list")
         if before is not None and after is not None:
             raise RuntimeError("'Before' and 'After' is not None. Only one parameter must be set")
+        if before is None and after is None:
+            raise RuntimeError("'Before' or 'After' must be not None")
+        if before in tasks or after in tasks:
+            raise RuntimeError("Can't move task before or after itself")
 
+        # work on a copy: a failure must not leave the children list half-changed
+        new_list = self._list.copy()
         for task in tasks:
-            self._list.remove(task)
+            new_list.remove(task)
             if before is not None:
-                self._list.insert(self._list.index(before), task)
-            elif after is not None:
-                self._list.insert(self._list.index(after) + 1, task)
+                new_list.insert(new_list.index(before), task)
             else:
-                raise RuntimeError("'Before' or 'After' must be not None")
+                new_list.insert(new_list.index(after) + 1, task)
 
+        self._list = new_list
         self.__setter(self._list)
 
     def sort(self, key: Union[str, List[str]], reverse=False) -> None:
